@@ -758,6 +758,22 @@ func (c *ControlPlane) handlePkt(lConn *net.UDPConn, data []byte, src, realDst n
 				goto afterSniffing
 			}
 
+			// flushHeld moves what the session buffered BEFORE the current datagram to
+			// replayPackets (ingress order) and empties the session. The current datagram
+			// itself travels as `data`; it must not stay in the session, or the release at
+			// afterSniffing would hand it out a second time.
+			appended := false
+			flushHeld := func() {
+				if buffered := sniffer.Data(); len(buffered) > 2 {
+					for _, d := range buffered[1 : len(buffered)-1] { // Skip the first empty and the last (self).
+						dCopy := pool.Get(len(d))
+						copy(dCopy, d)
+						replayPackets = append(replayPackets, dCopy)
+					}
+				}
+				sniffer.CompactPacketState()
+			}
+
 			// Safe sniffing: wrap in a function to allow recover() from potential
 			// sniffer panics (e.g., malformed packets or internal logic errors).
 			func() {
@@ -771,12 +787,16 @@ func (c *ControlPlane) handlePkt(lConn *net.UDPConn, data []byte, src, realDst n
 							}).Error("UDP sniffing panicked; bypassing sniffing for this DCID")
 						}
 						MarkQuicDcidFailed(key, quicDcidFailureReasonPanic)
+						if appended {
+							flushHeld()
+						}
 						sniffer.Mu.Unlock()
 					}
 				}()
 
 				_, _ = sniffer.ObserveQuicInitial(data)
 				sniffer.AppendData(data)
+				appended = true
 				domain, err = sniffer.SniffUdp()
 				if err != nil {
 					// Check for decrypt failures (malformed packets).
@@ -794,6 +814,7 @@ func (c *ControlPlane) handlePkt(lConn *net.UDPConn, data []byte, src, realDst n
 								}).Debug("QUIC decrypt failed repeatedly, marking DCID as failed")
 							}
 							MarkQuicDcidFailed(key, quicDcidFailureReasonDecryptFailure)
+							flushHeld()
 							sniffer.Mu.Unlock()
 							return
 						}
@@ -836,16 +857,7 @@ func (c *ControlPlane) handlePkt(lConn *net.UDPConn, data []byte, src, realDst n
 
 				// Flush previously buffered packets on the same endpoint path before the
 				// current packet so QUIC sniff completion preserves original ingress order.
-				toReplay := sniffer.Data()[1 : len(sniffer.Data())-1] // Skip the first empty and the last (self).
-				if len(toReplay) > 0 {
-					replayPackets = make([]pool.PB, 0, len(toReplay))
-					for _, d := range toReplay {
-						dCopy := pool.Get(len(d))
-						copy(dCopy, d)
-						replayPackets = append(replayPackets, dCopy)
-					}
-				}
-				sniffer.CompactPacketState()
+				flushHeld()
 				sniffer.Mu.Unlock()
 			}()
 			if sniffer.NeedMore() {
